@@ -98,6 +98,19 @@ def _simple(e: ast.AST) -> bool:
     return False
 
 
+def _pure(e: ast.AST) -> bool:
+    """Tests, comparisons and arithmetic over names, attributes, subscripts and constants (and len / isinstance of such): evaluating the
+    expression where the parameter is used instead of at the call changes nothing the rules look at."""
+    for x in ast.walk(e):
+        if isinstance(x, ast.Call):
+            if not (isinstance(x.func, ast.Name) and x.func.id in ('len', 'isinstance', 'tuple', 'list')):
+                return False
+        elif not isinstance(x, (ast.Name, ast.Attribute, ast.Subscript, ast.Constant, ast.Compare, ast.BoolOp, ast.UnaryOp, ast.BinOp, ast.Tuple, ast.List,
+                                ast.expr_context, ast.operator, ast.unaryop, ast.boolop, ast.cmpop, ast.Slice)):
+            return False
+    return True
+
+
 class ModuleInliner:
     def __init__(self, tree: ast.Module, modname: str, inventory: Set[str]):
         self.tree = tree
@@ -238,6 +251,12 @@ class ModuleInliner:
                 continue
             if tail and p in stored and isinstance(a, ast.Name) and a.id == p:
                 continue            # `return helper(x)` with parameter x: the helper may go on using the caller's x
+            single_use = p not in stored and sum(1 for n in ast.walk(g) if isinstance(n, ast.Name) and n.id == p) == 1 \
+                and not any(isinstance(h, (ast.For, ast.While, ast.Lambda, ast.ListComp, ast.SetComp, ast.DictComp, ast.GeneratorExp) + FUNC) and h is not g
+                            and any(isinstance(n, ast.Name) and n.id == p for n in ast.walk(h)) for h in ast.walk(g))
+            if single_use and _pure(a):
+                subst[p] = a            # `_require(x == y, msg)`: the condition is read where the helper tests it
+                continue
             if p in stored or not _simple(a):
                 tmp = f"{p}__i{k}" if (p in caller_names or p in stored) else p
                 prelude.append(ast.Assign(targets=[ast.Name(id=tmp, ctx=ast.Store())], value=copy.deepcopy(a)))
